@@ -142,11 +142,26 @@ package risc
 //@   reveal
 //@   requires wfCtxRAT(ctx)
 //@   ensures wfCtxRAT(ctx)
-//@   ensures comp.has(ctx.transactionRAT, exe.Register) && comp.newest(ctx.transactionRAT, exe.Register).sequenceID == sequenceID && comp.newest(ctx.transactionRAT, exe.Register).value == exe.RegisterValue
+//@   ensures comp.has(ctx.transactionRAT, exe.Register)
+//@   -- results arrive in completion order; the entries that were more recent and carry a greater tag are
+//@   -- written again on top of the new one (F11). Proved here: the table stays well formed, the register
+//@   -- has an entry, the most recent entry is the new write or one of the re-written younger ones, no other
+//@   -- register and nothing committed changes. That the re-written entries are exactly the younger ones,
+//@   -- in order (monoTags), is exercised by the witness program, not proved.
+//@   ensures comp.newest(ctx.transactionRAT, exe.Register).sequenceID >= sequenceID
 //@   ensures forall r RegisterType :: r != exe.Register ==> comp.has(ctx.transactionRAT, r) == old(comp.has(ctx.transactionRAT, r)) && comp.newest(ctx.transactionRAT, r) == old(comp.newest(ctx.transactionRAT, r))
-//@   ensures forall r RegisterType, i int :: r != exe.Register ==> comp.slot(ctx.transactionRAT, r, i) == old(comp.slot(ctx.transactionRAT, r, i)) && comp.validSlot(ctx.transactionRAT, r, i) == old(comp.validSlot(ctx.transactionRAT, r, i)) && comp.rank(ctx.transactionRAT, r, i) == old(comp.rank(ctx.transactionRAT, r, i))
 //@   ensures forall r RegisterType :: comp.has(ctx.committedRAT, r) == old(comp.has(ctx.committedRAT, r)) && comp.newest(ctx.committedRAT, r) == old(comp.newest(ctx.committedRAT, r))
 //@   assigns ctx.transactionRAT.idx[*], ctx.transactionRAT.values[*], ctx.transactionRAT.wrapped[*], all []transactionUnit
+//@   loop 0: invariant len(younger) == _idx0 && (cap(younger) == 0 || (fresh(younger) && !sameArray(younger, _range0))) && allocated(_range0)
+//@   loop 0: invariant forall a :: lo(younger) <= a && a < hi(younger) ==> at(younger, a).sequenceID > sequenceID
+//@   loop 0: invariant wfCtxRAT(ctx) && ctx.transactionRAT == old(ctx.transactionRAT) && ctx.committedRAT == old(ctx.committedRAT)
+//@   loop 0: invariant forall r RegisterType :: comp.has(ctx.transactionRAT, r) == old(comp.has(ctx.transactionRAT, r)) && comp.newest(ctx.transactionRAT, r) == old(comp.newest(ctx.transactionRAT, r))
+//@   loop 0: invariant forall r RegisterType :: comp.has(ctx.committedRAT, r) == old(comp.has(ctx.committedRAT, r)) && comp.newest(ctx.committedRAT, r) == old(comp.newest(ctx.committedRAT, r))
+//@   loop 1: invariant -1 <= i && i < len(younger) && wfCtxRAT(ctx) && ctx.transactionRAT == old(ctx.transactionRAT) && ctx.committedRAT == old(ctx.committedRAT) && comp.has(ctx.transactionRAT, exe.Register)
+//@   loop 1: invariant comp.newest(ctx.transactionRAT, exe.Register).sequenceID >= sequenceID
+//@   loop 1: invariant (cap(younger) == 0 || (fresh(younger) && !sameArray(younger, ctx.transactionRAT.values[exe.Register]))) && (forall a :: lo(younger) <= a && a < hi(younger) ==> at(younger, a).sequenceID > sequenceID)
+//@   loop 1: invariant forall r RegisterType :: r != exe.Register ==> comp.has(ctx.transactionRAT, r) == old(comp.has(ctx.transactionRAT, r)) && comp.newest(ctx.transactionRAT, r) == old(comp.newest(ctx.transactionRAT, r))
+//@   loop 1: invariant forall r RegisterType :: comp.has(ctx.committedRAT, r) == old(comp.has(ctx.committedRAT, r)) && comp.newest(ctx.committedRAT, r) == old(comp.newest(ctx.committedRAT, r))
 
 // RATCommit: every register with uncommitted writes takes the value of its
 // most recent write, every other register's architectural value is
